@@ -381,6 +381,22 @@ class StmtMixin:
                     if s2 is not None:
                         s2.env = s2.stack.pop()
                 return t, f, e
+        if isinstance(test, ast.Call) and dotted(test.func) == 'all' and not self.shadowed('all', st) and len(test.args) == 1 \
+                and not test.keywords and isinstance(test.args[0], (ast.GeneratorExp, ast.ListComp)):
+            g = test.args[0]
+            if len(g.generators) == 1 and not g.generators[0].ifs and isinstance(g.generators[0].target, ast.Name) \
+                    and isinstance(g.elt, ast.Compare) and len(g.elt.ops) == 1 and isinstance(g.elt.ops[0], ast.In) \
+                    and isinstance(g.elt.left, ast.Name) and g.elt.left.id == g.generators[0].target.id:
+                probe = st.clone()
+                it = self.ev(g.generators[0].iter, probe)
+                alpha = self.ev(g.elt.comparators[0], probe)
+                sp = self.spelling_of(it)
+                if isinstance(alpha, list) and all(isinstance(x, str) for x in alpha):
+                    alpha = ''.join(alpha) if all(len(x) == 1 for x in alpha) else None
+                if sp is not None and isinstance(alpha, str) and alpha and len(set(alpha)) == len(alpha) and not probe.dead:
+                    t, f = self.fork(st)
+                    t.facts = t.facts | {('letters', sp[0], tuple(alpha))}
+                    return t, f, False
         if isinstance(test, ast.Call):
             fn = dotted(test.func)
             if fn == 'isinstance' and not self.shadowed('isinstance', st) and len(test.args) == 2 and not test.keywords:
@@ -470,6 +486,10 @@ class StmtMixin:
         t = self.py_truth(v)
         if t is not None:
             return (st, None, True) if t else (None, st, True)
+        if self.spelling_of(v) is not None:
+            # is the spelling empty?  says nothing about the operand's value
+            t, f = self.fork(st)
+            return t, f, False
         if isinstance(v, (ModVal, NegMask)) or type(v).__name__ == 'Lin':
             return self.split_values(v, ast.NotEq(), 0, st, node)
         if isinstance(v, (Param, View, Bits)):
